@@ -616,14 +616,14 @@ spec.contract(
         LoopSpec(('while', '(k < max_treatment_size) | needs_matching'),
                  invariants=[
                      ('greedy invariant: stored and current groups are legal',
-                      _J, ('C01', 'C09')),
+                      _J, ('C01', 'C09', 'C13')),
                      ('the geo index of geo_assignments is installed',
                       installed)],
                  variant=_greedy_variant, variant_lemmas=_greedy_rank_lemma,
                  extra_modifies=GA_FIELDS_MOD),
         LoopSpec(('geo', 'reassignable_geos'),
                  invariants=[('candidate control group is admissible',
-                              _inner_match_inv, ('C01', 'C09')),
+                              _inner_match_inv, ('C01', 'C09', 'C13')),
                              ('C09 termination: the best score so far is the '
                               'score of the best control group so far',
                               _inner_match_score, ('C09',)),
@@ -631,7 +631,7 @@ spec.contract(
                  extra_modifies=GA_FIELDS_MOD),
         LoopSpec(('geo', 'r_treatment'),
                  invariants=[('candidate groups are admissible',
-                              _inner_add_inv, ('C01', 'C09')),
+                              _inner_add_inv, ('C01', 'C09', 'C13')),
                              ('index installed', installed)],
                  extra_modifies=GA_FIELDS_MOD),
         LoopSpec(('k', 'group_star_trt'),
